@@ -961,6 +961,7 @@ class Verifier(ExprMixin, CallMixin, Engine):
             if cond_txt is None:
                 p.obls.append(Obligation(f"{name}/raises[{cls}]", p.pc, z3.BoolVal(False), "raises-unexpected", ln, name,
                                          {"clause": f"no {cls} may escape", "exc": cls, "variant": vi}))
+                return       # an exception class outside the contract: the exceptional postconditions are not about it
             else:
                 q = self.spec_path(p, dict(p.old), old=p.old)
                 goal = z3.BoolVal(True) if cond_txt is True else self.eval_clause(cond_txt, q, fi.module)
